@@ -35,6 +35,10 @@ pub fn alphabet(variant: &str) -> Vec<Act> {
         a.push(Act::Clone { src: Src::R(i), dst: Dst::Slot(Own::R((i + 1) % 3), true, 0) });
         a.push(Act::Drop { dst: Dst::Slot(Own::R(i), false, 0) });
         a.push(Act::MarkAlive { src: Src::R(i) });
+        if i < 2 {
+            // ManuallyDrop slot: traced, never released by the owner
+            a.push(Act::Clone { src: Src::R((i + 1) % 3), dst: Dst::Slot(Own::R(i), false, NT as u8) });
+        }
         a.push(Act::TryUnwrap { reg: Dst::R(i) });
     }
     a.push(Act::Collect);
